@@ -351,6 +351,16 @@ def check(case, rec):
             for rk in t2.ranks:
                 rk.getShape(all_ranks=False)
             coords_in_shape(t2, f"tensor without declared shape, {stage}")
+        # a transform of the filled tensor sees all of it: its result reports shapes that hold every coordinate
+        if pts:
+            s2 = t2.splitUniform(2, depth=d - 1)
+            coords_in_shape(s2, "split of a tensor without declared shape that was filled in steps")
+            if s2.countValues() != t2.countValues():
+                raise Violation("values-lost", f"the split of a tensor filled in steps holds {s2.countValues()} of "
+                                f"{t2.countValues()} values")
+            if d >= 2:
+                w2 = t2.swizzleRanks(list(reversed(ids)))
+                coords_in_shape(w2, "swizzle of a tensor without declared shape that was filled in steps")
         r = t2
         where = "fill_in_steps"
     elif op == "from_ragged":
@@ -636,7 +646,18 @@ def _pin_p40():
     return None
 
 
+def _pin_p40b():
+    t = Tensor.fromFiber(["M", "K"], Fiber([0], [Fiber([0], [1])]))          # no shape given
+    t.setMutable(True)
+    t.getPayloadRef(0, 1).__ilshift__(1)
+    s = t.splitUniform(2, depth=1)
+    if s.getShape()[2] < 2:
+        return f"split of a fromFiber tensor grown since construction reports shape {s.getShape()} but stores K.0 coordinate 1"
+    return None
+
+
 PINNED = {"P40-estimate-made-at-construction-goes-stale": _pin_p40,
+          "P40b-split-of-grown-estimated-tensor": _pin_p40b,
           "P6a-swap-shape-estimated": _pin_swap_shape,
           "P17-merge-absolute-active-range": _pin_p17,
           "P18b-unflatten-top-rank-tuple-shape": _pin_unflatten_shape,
